@@ -9,7 +9,9 @@ vars2 == <<c, out>>
 B1 == <<1, MkClamped(1, <<Half>>, <<1>>)>>
 B2 == <<2, MkClamped(2, <<Half>>, <<0>>)>>
 K2 == <<2, MkClamped(2, <<Half>>, <<1>>)>>
-ConvShapes == Curves({K2, B1}, {2, 3}, {FALSE}, Seed) \cup Surfaces({B1}, {B2, K2}, {3}, {FALSE}, Seed)
+ConvShapes == Curves({K2, B1}, {2, 3}, {FALSE}, Seed) \cup Surfaces({B1}, {B2, K2}, {3}, {FALSE}, Seed) \cup Surfaces({K2}, {B1}, {3}, {FALSE}, Seed)
+              \* volumes: sizes and degrees all different, and equal degree / size with different knots in two directions
+              \cup Volumes({B1}, {B2}, {K2}, {FALSE}, Seed) \cup Volumes({K2}, {B1}, {B2}, {FALSE}, Seed)
               \cup Volumes({B1}, {B2}, {<<1, MkClamped(1, <<Half>>, <<0>>)>>}, {FALSE}, Seed)
 Cases == {[kind |-> "helpers", n |-> n, dim |-> d, k |-> k] : n \in 1..4, d \in {2, 3}, k \in 1..2}
          \cup {[kind |-> "convert", sh |-> s] : s \in ConvShapes}
